@@ -74,7 +74,7 @@ Spec == Init /\ [][Next]_c
 WF(g) == WellFormed(c.stack, c.cell, g)
 \* rectangles of one layer never overlap each other when the cell is well formed (same track: disjoint pieces; different tracks: disjoint across)
 Emit == PrintT(<<"CASE", ToJson([stack |-> c.stack, cell |-> c.cell,
-            wf_track |-> WF("track"), wf_period |-> WF("period"),
+            wf_track |-> WF("track"), wf_period |-> WF("period"), net_conflict_only |-> NetConflictOnly(c.stack, c.cell),
             rects_track |-> IF WF("track") THEN Compile(c.stack, c.cell, "track") ELSE <<>>,
             rects_period |-> IF WF("period") THEN Compile(c.stack, c.cell, "period") ELSE <<>>])>>)
 =============================================================================
